@@ -161,6 +161,14 @@ impl Binder {
 
         // find cte
         if let Some((query, columns)) = self.find_cte(table_name).cloned() {
+            // The CTE is bound once, so every reference to it shares the same column ids: a
+            // second reference could not be told apart from the first one.
+            if !self.referenced_ctes.insert(query) {
+                return Err(ErrorKind::Todo(format!(
+                    "CTE \"{table_name}\" is referenced more than once"
+                ))
+                .into());
+            }
             // add column aliases
             for (column_name, id) in columns {
                 self.add_alias(column_name, table_alias.into(), id);
